@@ -3,7 +3,7 @@
 Oracle: a shadow dict + use counters + the deletion-callback log, compared with
 the BoundedDict after EVERY operation of a history (public API only: item
 access, `data`, `len`, `in`, `keys`).  Histories: exhaustive short ones (all
-operation sequences up to a length over 4 interchangeable keys, up to key
+operation sequences up to a length over 3-5 interchangeable keys, up to key
 renaming) for every (max_size, min_size) with 1 <= min_size <= max_size <= 5
 and the default min_size, plus long random ones with the remaining mapping API.
 
@@ -20,7 +20,7 @@ from vf import common
 
 CHECK = dict(
     id="C29", level="exploration",
-    rule=("exhaustive: every sequence of <=L operations (store k, read k, delete k; k among 4 keys, "
+    rule=("exhaustive: every sequence of <=L operations (store k, read k, delete k; k among max(3, max_size (+1 if min_size==max_size)) keys, "
           "sequences identified up to renaming of keys; reads/deletes of one absent key included) for "
           "each (max_size, min_size) in 1<=min<=max<=5 and min_size=default, L=7 quick / 8 thorough, "
           "each sequence replayed from an empty dictionary and ended by destroying the dictionary; "
@@ -36,12 +36,20 @@ CHECK = dict(
     technique="runtime monitoring: history-vs-shadow-model with callback log, exhaustive short histories",
 )
 
-NKEYS = 4
+NKEYS = 6
+
+
+def nkeys(cfg):
+    """keys used by the exhaustive histories of a configuration: enough to reach the point
+    where keys are dropped (length max_size-1 before a new key; max_size when min_size == max_size)"""
+    return max(3, cfg[0] + 1 if cfg[1] == cfg[0] else cfg[0])
+
+
 CONFIGS = [(mx, mn) for mx in range(1, 6) for mn in [None] + list(range(1, mx + 1))]
 
 
-def _children(seen):
-    b = min(seen + 1, NKEYS)
+def _children(seen, K):
+    b = min(seen + 1, K)
     out = []
     for k in range(b):
         out.append((("set", k), max(seen, k + 1)))
@@ -52,14 +60,14 @@ def _children(seen):
     return out
 
 
-def _subtree_size(seen, depth, L, memo={}):
-    key = (seen, depth, L)
+def _subtree_size(seen, depth, L, K, memo={}):
+    key = (seen, depth, L, K)
     if key in memo:
         return memo[key]
     n = depth
     if depth < L:
-        for _, s2 in _children(seen):
-            n += _subtree_size(s2, depth + 1, L)
+        for _, s2 in _children(seen, K):
+            n += _subtree_size(s2, depth + 1, L, K)
     memo[key] = n
     return n
 
@@ -69,11 +77,12 @@ def shards(tier, seed, scale):
     if scale < 0.5:
         L -= 1
     items = []
-    for ci, _ in enumerate(CONFIGS):
-        for op1, s1 in _children(0):
-            items.append((_subtree_size(s1, 1, 1), ci, [list(op1)], s1, 1))       # the depth-1 node alone
-            for op2, s2 in _children(s1):
-                items.append((_subtree_size(s2, 2, L), ci, [list(op1), list(op2)], s2, L))
+    for ci, cfg in enumerate(CONFIGS):
+        K = nkeys(cfg)
+        for op1, s1 in _children(0, K):
+            items.append((_subtree_size(s1, 1, 1, K), ci, [list(op1)], s1, 1))       # the depth-1 node alone
+            for op2, s2 in _children(s1, K):
+                items.append((_subtree_size(s2, 2, L, K), ci, [list(op1), list(op2)], s2, L))
     items.sort(key=lambda it: -it[0])
     n = 16
     nrand = int((150 if tier == "quick" else 6000) * scale)
@@ -83,6 +92,16 @@ def shards(tier, seed, scale):
         out.append(dict(seed=seed, shard=i, tier=tier, hashseed=hs, salt="c29",
                         items=[it[1:] for it in items[i::n]], nrand=max(1, nrand)))
     return out
+
+
+def _opclass(opname):
+    op = opname.split(" ")[0]
+    if op in ("setitem", "update", "setdefault"):
+        return "store" + (" (evicting)" if "evicting" in opname else "")
+    return op
+
+
+_GC_BUDGET = [200]      # gc.collect() fallbacks per worker (each costs milliseconds)
 
 
 class Violation(Exception):
@@ -117,31 +136,35 @@ class Monitor(object):
         self.uses_b = {k: 1 for k in self.model}     # since insertion
         self.evictions = 0
         self.deletions = 0
+        self.probe = 0
+        self.soft = []
         self.check_state("init")
 
     # -- observation helpers
     def fail(self, key, what):
         raise Violation("%s [%s]" % (key, self.cls), what)
 
-    def check_state(self, opname):
+    def check_state(self, opname, k=None):
         d = self.d
+        model = self.model
         try:
-            held = dict(d.data)
+            held = d.data
             n = len(d)
-            ks = sorted(d.keys())
+            ks = d.keys()
         except Exception as exc:
             self.fail("observer raises %s" % type(exc).__name__, "%r after %s" % (exc, opname))
         if n > self.max:
-            self.fail("len>max_size after %s" % opname.split(" ")[0],
+            self.fail("len>max_size after %s" % _opclass(opname),
                       "len=%d max_size=%d" % (n, self.max))
-        if n != len(held) or ks != sorted(held):
+        if n != len(held) or len(ks) != n or set(ks) != set(held):
             self.fail("len/keys/data disagree", "len=%d keys=%r data=%r" % (n, ks, held))
-        if held != self.model:
-            self.fail("held items differ from last stored values after %s" % opname.split(" ")[0],
-                      "held=%r model=%r" % (held, self.model))
-        for k in range(NKEYS + 3):
-            if (k in d) != (k in self.model):
-                self.fail("__contains__ wrong", "key %r" % k)
+        if held != model:
+            self.fail("held items differ from last stored values after %s" % _opclass(opname),
+                      "held=%r model=%r" % (dict(held), model))
+        for x in (k, self.probe):
+            if x is not None and (x in d) != (x in model):
+                self.fail("__contains__ wrong", "key %r" % x)
+        self.probe = (self.probe + 1) % (NKEYS + 3)
 
     def expect_log(self, before, expected, opname):
         new = self.log[before:]
@@ -158,7 +181,7 @@ class Monitor(object):
                 cls = "missing"
             else:
                 cls = "mismatch"
-            self.fail("delete_cb %s during %s" % (cls, opname.split(" ")[0]),
+            self.fail("delete_cb %s during %s" % (cls, _opclass(opname)),
                       "callbacks %r, dropped keys %r" % (new, expected))
 
     # -- operations
@@ -184,7 +207,7 @@ class Monitor(object):
                 self.uses_a[k] += 1
                 self.uses_b[k] += 1
                 self.expect_log(before, [], how)
-                self.check_state(how)
+                self.check_state(how, k)
                 return
             if got != v:
                 self.fail("setdefault returns wrong value", "%r != %r" % (got, v))
@@ -212,6 +235,8 @@ class Monitor(object):
             for x in evicted:
                 del model[x]
                 del self.uses_b[x]
+        if is_new and pre_len >= self.max - 1:
+            # the resize point: counters restart, whether or not a key was dropped
             self.uses_a = {x: 1 for x in model}
         self.expect_log(before, evicted, how + (" (evicting)" if evicted else ""))
         model[k] = v
@@ -221,7 +246,7 @@ class Monitor(object):
         else:
             self.uses_a[k] += 1
             self.uses_b[k] += 1
-        self.check_state(how)
+        self.check_state(how, k)
 
     def get(self, k, how="getitem"):
         d, model = self.d, self.model
@@ -233,10 +258,11 @@ class Monitor(object):
                 got = d.get(k, "absent")
             raised = None
         except Exception as exc:
-            raised = exc
+            # keep no reference to the exception: its traceback would keep the dictionary alive
+            raised = (type(exc).__name__, repr(exc))
         if k in model:
             if raised is not None:
-                self.fail("%s of a held key raises %s" % (how, type(raised).__name__), repr(raised))
+                self.fail("%s of a held key raises %s" % (how, raised[0]), raised[1])
             if got != model[k]:
                 self.fail("%s returns a value that is not the last stored" % how,
                           "%r != %r" % (got, model[k]))
@@ -248,7 +274,7 @@ class Monitor(object):
             if how == "get" and (raised is not None or got != "absent"):
                 self.fail("get(default) of an absent key", "%r %r" % (raised, None if raised else got))
         self.expect_log(before, [], how)
-        self.check_state(how)
+        self.check_state(how, k)
 
     def delete(self, k, how="delitem"):
         d, model = self.d, self.model
@@ -260,10 +286,10 @@ class Monitor(object):
                 got = d.pop(k)
             raised = None
         except Exception as exc:
-            raised = exc
+            raised = (type(exc).__name__, repr(exc))
         if k in model:
             if raised is not None:
-                self.fail("%s of a held key raises %s" % (how, type(raised).__name__), repr(raised))
+                self.fail("%s of a held key raises %s" % (how, raised[0]), raised[1])
             if how == "pop" and got != model[k]:
                 self.fail("pop returns a value that is not the last stored", "%r != %r" % (got, model[k]))
             del model[k]
@@ -274,22 +300,31 @@ class Monitor(object):
         else:
             if raised is None:
                 self.fail("%s of an absent key does not raise" % how, "")
-            self.expect_log(before, [], how + " of an absent key")
-        self.check_state(how)
+            new = self.log[before:]
+            if self.with_cb and new:
+                # the state is unchanged and the model still in step: record and go on
+                if new == [k]:
+                    self.soft.append(("delete_cb invoked by %s of an absent key" % how,
+                                      "callbacks %r although nothing was dropped" % new))
+                else:
+                    self.fail("delete_cb spurious during %s of an absent key" % how, repr(new))
+        self.check_state(how, k)
 
     def destroy(self):
         import gc
         before = len(self.log)
         expected = sorted(self.model)
         self.d = None
-        if self.with_cb and sorted(self.log[before:]) != expected:
+        if self.with_cb and sorted(self.log[before:]) != expected and _GC_BUDGET[0] > 0:
+            _GC_BUDGET[0] -= 1
             gc.collect()
         self.model = {}
         self.expect_log(before, expected, "destruction")
 
 
-def replay(BoundedDict, cfg, ops, rec):
+def replay(BoundedDict, cfg, ops, rec, holder):
     mon = Monitor(BoundedDict, cfg[0], cfg[1], rec)
+    holder.append(mon)
     step = 0
     for step, (kind, k) in enumerate(ops):
         if kind == "set":
@@ -311,11 +346,16 @@ def run_shard(params, rec):
         rec.ev()
         rec.count("histories_" + kind)
         rec.count("ops", len(ops))
+        holder = []
         try:
-            mon = replay(BoundedDict, cfg, ops, rec)
+            mon = replay(BoundedDict, cfg, ops, rec, holder)
         except Violation as v:
             rec.fail(v.key, v.what, dict(max_size=cfg[0], min_size=cfg[1], ops=[list(o) for o in ops]))
             return
+        finally:
+            for m in holder:
+                for key, what in m.soft[:1]:
+                    rec.fail(key, what, dict(max_size=cfg[0], min_size=cfg[1], ops=[list(o) for o in ops]))
         if mon.evictions or mon.deletions:
             rec.distinct("%r/%r" % (cfg, ops))
             if mon.evictions:
@@ -330,7 +370,7 @@ def run_shard(params, rec):
         run_one(cfg, prefix, "exhaustive")
         if len(prefix) >= L:
             return
-        for op, s2 in _children(seen):
+        for op, s2 in _children(seen, nkeys(cfg)):
             prefix.append(op)
             walk(cfg, prefix, s2, L)
             prefix.pop()
@@ -351,6 +391,7 @@ def run_shard(params, rec):
         ops = []
         rec.ev()
         rec.count("histories_random")
+        mon = None
         try:
             mon = Monitor(BoundedDict, mx, mn, rec, with_cb=with_cb, initial=initial)
             for step in range(200):
@@ -376,6 +417,10 @@ def run_shard(params, rec):
                 rec.count("histories_with_eviction")
         except Violation as v:
             rec.fail(v.key, v.what, dict(max_size=mx, min_size=mn, with_cb=with_cb, initial=initial,
+                                         ops=[list(o) for o in ops]))
+        if mon is not None:
+            for key, what in mon.soft[:1]:
+                rec.fail(key, what, dict(max_size=mx, min_size=mn, with_cb=with_cb, initial=initial,
                                          ops=[list(o) for o in ops]))
 
 
